@@ -769,6 +769,16 @@ structure P2 (F : Type) where
   incomplete : Nat
   warnings : Nat
   s : IStream
+  /-- ghost: every severity handed to `AppendEntityErrorMsg`, most recent first (not read by the model) -/
+  reported : List Sev := []
+
+/-- what `ReadInstance` did: the stream, the instance as read (`none` = ENTITY_NULL returned), the severity handed to
+    `AppendEntityErrorMsg`, the severity left on the object for `ReadData2`'s counters -/
+structure IOut (F : Type) where
+  s : IStream
+  inst : Option (MInst F) := none
+  reported : Option Sev := none
+  left : Option Sev := none
 
 /-- `AppendEntityErrorMsg` on the file's error descriptor -/
 def appendEntityError (fileErr sev : Sev) : Sev :=
@@ -777,24 +787,24 @@ def appendEntityError (fileErr sev : Sev) : Sev :=
 
 /-- `ReadInstance` after the `#`: new state, and whether an object was returned (with the severity left on it) -/
 def readInstance {F} (ops : FloatOps F) (lex : LexCfg) (cfg : RWCfg) (d : Dict) (strict : Bool) (st : P2 F) :
-    M (P2 F × Option Sev) := do
+    M (IOut F) := do
   let s0 := readComment st.s
   let (oi, s1) := s0.extractInt32
   let fileid := oi.getD (-1)
   match st.mgr.find? fileid with
   | none =>
     let s2 ← skipInstance cfg s1
-    pure ({ st with s := s2 }, none)
+    pure { s := s2 }
   | some inst =>
     if inst.state != .new then
       let s2 ← skipInstance cfg s1
-      pure ({ st with s := s2 }, none)
+      pure { s := s2 }
     else
       let s2 := readTokenSeparator s1
       let (c, s3) := getInto 0 s2
       if c != 61 then
         let s4 ← skipInstance cfg s3
-        pure ({ st with s := s4 }, none)
+        pure { s := s4 }
       else
         let s4 := readTokenSeparator s3
         let (c2, s5) := s4.peekC
@@ -828,8 +838,8 @@ def readInstance {F} (ops : FloatOps F) (lex : LexCfg) (cfg : RWCfg) (d : Dict) 
           let (sev, s8) := semi sev0 s6
           let inst' := { inst with parts := parts', state := stateOf sev }
           if cfg.complexReportsError then
-            pure ({ st with mgr := st.mgr.update inst', fileErr := appendEntityError st.fileErr sev, s := s8 }, some .null)
-          else pure ({ st with mgr := st.mgr.update inst', s := s8 }, some sev)
+            pure { s := s8, inst := some inst', reported := some sev, left := some .null }
+          else pure { s := s8, inst := some inst', left := some sev }
         else
           let s6 := readTokenSeparator s5
           let (c3, s7) := s6.peekC
@@ -840,8 +850,23 @@ def readInstance {F} (ops : FloatOps F) (lex : LexCfg) (cfg : RWCfg) (d : Dict) 
           let s10 := readTokenSeparator sR
           let (sev, s12) := semi sev0 s10
           let inst' := { inst with parts := parts', state := stateOf sev }
-          pure ({ st with mgr := st.mgr.update inst', fileErr := appendEntityError st.fileErr sev, s := s12 },
-                some .null)
+          pure { s := s12, inst := some inst', reported := some sev, left := some .null }
+
+/-- what `ReadInstance`'s tail and `ReadData2` do with the outcome: node update, `AppendEntityErrorMsg`, counters -/
+def applyOutcome {F} (st : P2 F) (o : IOut F) : P2 F :=
+  let st1 : P2 F := { st with
+    mgr := match o.inst with | some i => st.mgr.update i | none => st.mgr
+    fileErr := match o.reported with | some sv => appendEntityError st.fileErr sv | none => st.fileErr
+    reported := match o.reported with | some sv => sv :: st.reported | none => st.reported
+    s := o.s }
+  match o.left with
+  | some sev =>
+    let st1 := { st1 with total := st1.total + 1 }
+    if sev.toInt < Sev.incomplete.toInt then { st1 with invalid := st1.invalid + 1 }
+    else if sev == .incomplete then { st1 with incomplete := st1.incomplete + 1, invalid := st1.invalid + 1 }
+    else if sev == .usermsg then { st1 with warnings := st1.warnings + 1 }
+    else { st1 with valid := st1.valid + 1 }
+  | none => { st1 with invalid := st1.invalid + 1 }
 
 def readData2Loop {F} (ops : FloatOps F) (lex : LexCfg) (cfg : RWCfg) (d : Dict) (strict : Bool) :
     Nat → P2 F → Bool → M (P2 F)
@@ -853,15 +878,8 @@ def readData2Loop {F} (ops : FloatOps F) (lex : LexCfg) (cfg : RWCfg) (d : Dict)
       let (_, endsec1, s3) ← if c != 35 then resync (s2.right.length + 3) c (s2.putback c) else pure (c, false, s2)
       if endsec1 then readData2Loop ops lex cfg d strict fuel { st with s := s3 } true
       else
-        let (st1, o) ← readInstance ops lex cfg d strict { st with s := s3 }
-        let st2 : P2 F := match o with
-          | some sev =>
-            let st1 := { st1 with total := st1.total + 1 }
-            if sev.toInt < Sev.incomplete.toInt then { st1 with invalid := st1.invalid + 1 }
-            else if sev == .incomplete then { st1 with incomplete := st1.incomplete + 1, invalid := st1.invalid + 1 }
-            else if sev == .usermsg then { st1 with warnings := st1.warnings + 1 }
-            else { st1 with valid := st1.valid + 1 }
-          | none => { st1 with invalid := st1.invalid + 1 }
+        let o ← readInstance ops lex cfg d strict { st with s := s3 }
+        let st2 := applyOutcome st o
         let (es, s5) := foundEndSec st2.s
         readData2Loop ops lex cfg d strict fuel { st2 with s := s5 } es
     else pure st
@@ -877,6 +895,8 @@ structure FileResult (F : Type) where
   valid : Nat
   invalid : Nat
   incomplete : Nat
+  /-- ghost: the severities handed to `AppendEntityErrorMsg` during pass 2 -/
+  reported : List Sev := []
 
 /-- p21read's exit status after reading -/
 def exitStatus (e : Sev) : Nat := if e.toInt ≤ Sev.incomplete.toInt then 1 else 0
@@ -893,6 +913,14 @@ def getKeyword : Nat → Bool → Byte → IStream → Bool → Bool × IStream
       let (c', s2) := getInto c s1
       getKeyword fuel false c' s2 bad
 
+/-- the tail of `AppendFile`: (file severity, returned severity) from the severity after pass 2, "total != valid",
+    "an invalid character in the end keyword", "stream not good after the end keyword" -/
+def finalVerdict (e2 : Sev) (mismatch kwBad endBad : Bool) : Sev × Sev :=
+  if mismatch then (e2.greater .warning, e2.greater .warning)
+  else
+    let e3 := if kwBad then e2.greater .warning else e2
+    if endBad then (e3.greater .warning, e3.greater .warning) else (e3, .null)
+
 /-- both passes over the text following `DATA;` (each pass gets its own stream; `skipws` as the header left it) -/
 def readDataSection {F} (ops : FloatOps F) (lex : LexCfg) (cfg : RWCfg) (d : Dict) (strict : Bool) (skipws : Bool)
     (bytes : List Byte) : M (FileResult F) := do
@@ -905,21 +933,15 @@ def readDataSection {F} (ops : FloatOps F) (lex : LexCfg) (cfg : RWCfg) (d : Dic
   let e2 := if p2.invalid > 0 then p2.fileErr.greater .warning else p2.fileErr
   let mk (sev ret : Sev) : FileResult F :=
     { mgr := p2.mgr, sev := sev, ret := ret, created := p1.count, notCreated := p1.notCreated, valid := p2.valid,
-      invalid := p2.invalid, incomplete := p2.incomplete }
+      invalid := p2.invalid, incomplete := p2.incomplete, reported := p2.reported }
   let s2 := readTokenSeparator p2.s
-  if p1.count != p2.valid then
-    let e3 := e2.greater .warning
-    pure (mk e3 e3)
-  else
-    -- `END-ISO-10303-21;`: the keyword itself is not compared (see the notes); what counts is the stream state
-    let (e3, s3) : Sev × IStream :=
-      if s2.good then
-        let (bad, s') := getKeyword (s2.right.length + 3) true 0 (readTokenSeparator s2) false
-        (if bad then e2.greater .warning else e2, (getInto 0 s').2)
-      else (e2, s2)
-    if !s3.good then
-      let e4 := e3.greater .warning
-      pure (mk e4 e4)
-    else pure (mk e3 .null)
+  -- `END-ISO-10303-21;`: the keyword itself is not compared (see the notes); what counts is the stream state
+  let (kwBad, s3) : Bool × IStream :=
+    if s2.good then
+      let (bad, s') := getKeyword (s2.right.length + 3) true 0 (readTokenSeparator s2) false
+      (bad, (getInto 0 s').2)
+    else (false, s2)
+  let v := finalVerdict e2 (p1.count != p2.valid) kwBad (!s3.good)
+  pure (mk v.1 v.2)
 
 end StepModel.P21
